@@ -19,6 +19,7 @@
 -/
 import Y0.Lemmas.IdSoundD
 import Y0.Lemmas.IdTopo
+import Y0.Lemmas.IdTopoAnc
 
 namespace Y0
 open IdDsl IdAux MG
@@ -98,6 +99,14 @@ theorem identifyOutcomes_sound {topo : MG Name → Except Err (List Name)} (ts :
     exact id_sound ts G X Y hq _ he M hM σ' σ
   · cases h
   · cases h
+
+/-- **C01, closed form**: with the executable sorter `ancTopo` (which provably returns linear extensions) and
+acyclicity in its relational form, no assumption about `topological_sort` is left. -/
+theorem id_sound_acyclic (G : MG Name) (X Y : List Name) (hG : G.WF) (hac : G.Acyclic)
+    (hY : ∀ y ∈ Y, y ∈ G.nodes) (hne : Y ≠ []) (hdisj : ∀ y ∈ Y, y ∉ X) (e : Expr)
+    (h : identify ancTopo G X Y = .ok e) (M : Scm) (hM : M.Compatible G) (σ' σ : Val) :
+    den (M.env G) σ' e σ = M.doProb G X Y σ :=
+  id_sound ancTopo_sound G X Y ⟨hG, MG.acyclic_ranked hG hac, hY, hne, hdisj⟩ e h M hM σ' σ
 
 /-- line 1 of ID returns the marginal of the carried estimand -/
 theorem step_line1 (topo : MG Name → Except Err (List Name)) (I : IdIn) (h : I.X = []) :
